@@ -533,6 +533,69 @@ def thread_constant_flags(modules, known, rep):
                     break
 
 
+# ---------------------------------------------------------------------------------------------- N18 keyed table arms
+def expand_keyed_arms(modules, known, rep):
+    """fresh `if x in {K1: v1, K2: v2}: BODY using {…}[x]` (constant str keys, x a local that is a real str: `.upper()` /
+    `str()` result) is the chain `if x == K1: BODY[v1] elif x == K2: BODY[v2]`; a call `f(a, **{'k': c})` is `f(a, k=c)`."""
+    for rel, sc, fn in all_functions(modules):
+        kh = _known_hashes(known, rel, sc, fn)
+        if kh is None:
+            continue
+        strs = set()
+        for n in ast.walk(fn):
+            if isinstance(n, ast.Assign) and len(n.targets) == 1 and isinstance(n.targets[0], ast.Name) and isinstance(n.value, ast.Call) and \
+                    ((isinstance(n.value.func, ast.Attribute) and n.value.func.attr in ("upper", "lower", "strip")) or
+                     (isinstance(n.value.func, ast.Name) and n.value.func.id == "str")):
+                strs.add(n.targets[0].id)
+        changed = True
+        while changed:
+            changed = False
+            for owner, fld, stmts in list(_blocks(fn)):
+                for i, st in enumerate(stmts):
+                    if not (isinstance(st, ast.If) and isinstance(st.test, ast.Compare) and len(st.test.ops) == 1 and isinstance(st.test.ops[0], ast.In)
+                            and isinstance(st.test.left, ast.Name) and st.test.left.id in strs and isinstance(st.test.comparators[0], ast.Dict)):
+                        continue
+                    table = st.test.comparators[0]
+                    x = st.test.left.id
+                    if not table.keys or not all(isinstance(k, ast.Constant) and isinstance(k.value, str) for k in table.keys):
+                        continue
+                    tdump = ast.dump(table)
+                    if any(isinstance(n, ast.Name) and n.id == x and isinstance(n.ctx, ast.Store) for b in st.body for n in ast.walk(b)):
+                        continue
+                    node = st.orelse
+                    for k, v in reversed(list(zip(table.keys, table.values))):
+                        class S(ast.NodeTransformer):
+                            def visit_Subscript(self, nd):
+                                self.generic_visit(nd)
+                                if isinstance(nd.ctx, ast.Load) and isinstance(nd.value, ast.Dict) and ast.dump(nd.value) == tdump \
+                                        and isinstance(nd.slice, ast.Name) and nd.slice.id == x:
+                                    return ast.copy_location(copy.deepcopy(v), nd)
+                                return nd
+
+                            def visit_Call(self, nd):
+                                self.generic_visit(nd)
+                                kws = []
+                                for kw in nd.keywords:
+                                    if kw.arg is None and isinstance(kw.value, ast.Dict) and all(isinstance(kk, ast.Constant) and isinstance(kk.value, str) for kk in kw.value.keys):
+                                        kws += [ast.keyword(kk.value, vv) for kk, vv in zip(kw.value.keys, kw.value.values)]
+                                    else:
+                                        kws.append(kw)
+                                nd.keywords = kws
+                                return nd
+                        body = [S().visit(copy.deepcopy(b)) for b in st.body]
+                        test = ast.Compare(ast.Name(x, ast.Load()), [ast.Eq()], [copy.deepcopy(k)])
+                        new = ast.copy_location(ast.If(test, body, node), st)
+                        node = [new]
+                    for n in node:
+                        ast.fix_missing_locations(n)
+                    stmts[i:i + 1] = node
+                    rep.other.append(f"keyed table arm `{x} in {{...}}` at {rel}:{st.lineno} read as an if/elif chain over its {len(table.keys)} keys")
+                    changed = True
+                    break
+                if changed:
+                    break
+
+
 # ---------------------------------------------------------------------------------------------- N5 / N6 fresh locals
 def _class_attr_stores(modules):
     """class -> method -> set of self-attributes stored; class -> method -> set of self-methods called."""
